@@ -20,13 +20,15 @@ from fdtdx.fdtd.forward import forward
 from .. import jx2smt as jx
 from .. import sc
 from ..core import Inconclusive, model_array
-from ..scenes import SPACING, build_scene
+from ..scenes import build_scene, exact_widths, grid_widths
+
+SPACING = 2.0 ** -24  # dyadic spacing (~59.6 nm): widths k/8*SPACING and their cumulative edges are exact floats, so both placements derive identical constants
 
 META = dict(
     functions=["fdtd.forward.forward", "core.misc.pad_fields(periodic_axes)", "fdtd.update.pad_fields_for_boundaries", "BlochBoundary.apply_pad_correction/get_bloch_phase",
                "core.physics.curl.curl_E/curl_H/_metric_scale", "update_E/update_H"],
     assumptions=["reals for floats", "materials: seeded positive values per cell (concrete), tiled for the supercell", "quantified: all N-cell field values (real, or complex for Bloch)",
-                 "Bloch phase powers computed in the harness: comparison in round-off tolerance mode (1e-9 relative, inputs boxed)"],
+                 "stub: RectilinearGrid.cell_widths returns the grid widths as exact rationals (supercell = exact tiling)", "stub: BlochBoundary.get_bloch_phase returns an exact unit-modulus rational phase (Pythagorean), the supercell its exact m-th power; the real get_bloch_phase is checked concretely for phase(mL) == phase(L)^m, |phase| == 1 and phase == exp(i k L)"],
     outside="T, m and shapes beyond the bounds; PML on the non-periodic faces",
     bounds=dict(quick=dict(T=3, m=[2, 3]), thorough=dict(T=5, m=[2, 3])),
 )
@@ -56,6 +58,29 @@ def cases(tier, seed):
     return out
 
 
+class bloch_phase_stub:
+    """Harness-side stub: while active, ``BlochBoundary.get_bloch_phase`` returns entry ``axis`` of the given (traced)
+    complex vector, so that the phase is an exact unit-modulus rational in the interpretation (a float exp(i k L) is
+    only unit-modulus up to round-off, and supercell = tiled cell needs conj(p) p = 1 exactly)."""
+
+    def __init__(self, ph):
+        self.ph = ph
+
+    def __enter__(self):
+        from fdtdx.objects.boundaries.bloch import BlochBoundary
+        self.cls = BlochBoundary
+        self.orig = BlochBoundary.get_bloch_phase
+        ph = self.ph
+        BlochBoundary.get_bloch_phase = lambda self_, volume_shape, resolution: ph[self_.axis]
+        return self
+
+    def __exit__(self, *a):
+        self.cls.get_bloch_phase = self.orig
+
+
+_PYTH = [(3, 4, 5), (5, -12, 13), (-8, 15, 17), (0, 1, 1), (-1, 0, 1), (7, 24, 25)]
+
+
 def run_case(c, case):
     shape, tile, T = tuple(case["shape"]), tuple(case["tile"]), case["T"]
     rng = np.random.default_rng(c.seed + 5)
@@ -76,8 +101,8 @@ def run_case(c, case):
     L = [float(np.sum(w)) * SPACING if ws is not None else n * SPACING for w, n in zip(ws or [None] * 3, shape)]
     kvec = tuple(kl / l for kl, l in zip(case["kL"], L))
     mat = fdtdx.Material(permittivity=(2.0, 3.0, 1.5), permeability=(1.5, 1.25, 2.0))
-    S1 = build_scene(shape, bounds, steps=T, widths=ws, bloch_vector=kvec, background=mat, thickness=1)
-    S2 = build_scene(sshape, bounds, steps=T, widths=wss, bloch_vector=kvec, background=mat, thickness=1)
+    S1 = build_scene(shape, bounds, steps=T, widths=ws, bloch_vector=kvec, background=mat, thickness=1, spacing=SPACING)
+    S2 = build_scene(sshape, bounds, steps=T, widths=wss, bloch_vector=kvec, background=mat, thickness=1, spacing=SPACING)
     cplx = np.iscomplexobj(np.asarray(S1["arrays"].fields.E))
     if cplx != np.iscomplexobj(np.asarray(S2["arrays"].fields.E)):
         raise Inconclusive("the two placements disagree on complex storage")
@@ -94,7 +119,27 @@ def run_case(c, case):
     c.symvars += (E.size + H.size) * (2 if cplx else 1)
     ie = np.round(rng.uniform(0.3, 1.0, size=np.shape(S1["arrays"].inv_permittivities)), 3)
     im = np.round(rng.uniform(0.4, 1.0, size=np.shape(S1["arrays"].inv_permeabilities)), 3)
-    phase = [np.exp(1j * kl) for kl in case["kL"]]
+    from fractions import Fraction
+    # exact unit-modulus rational phase per axis (1 where k = 0); the placed scenes get the matching k vector
+    exact_phase = []
+    for ax in range(3):
+        if case["kL"][ax] == 0 or not cplx:
+            exact_phase.append((Fraction(1), Fraction(0)))
+        else:
+            a_, b_, h_ = _PYTH[(ax + int(abs(case["kL"][ax]) * 10)) % len(_PYTH)]
+            exact_phase.append((Fraction(a_, h_), Fraction(b_, h_)))
+    phase = [complex(float(p[0]), float(p[1])) for p in exact_phase]
+
+    def cpow(p, m):
+        r = (Fraction(1), Fraction(0))
+        for _ in range(m):
+            r = (r[0] * p[0] - r[1] * p[1], r[0] * p[1] + r[1] * p[0])
+        return r
+    ph1 = np.empty((3,), dtype=object)
+    ph2 = np.empty((3,), dtype=object)
+    for ax in range(3):
+        ph1[ax] = sc.Cx(*exact_phase[ax])
+        ph2[ax] = sc.Cx(*cpow(exact_phase[ax], tile[ax]))
 
     def tile_np(a, with_phase):
         """numpy tiling of a (comp, x, y, z) array, copy j along axis ax multiplied by phase[ax]**j."""
@@ -119,8 +164,7 @@ def run_case(c, case):
             parts = []
             for j in range(m):
                 if with_phase and cplx and j > 0:
-                    p = phase[ax] ** j
-                    pc = sc.Cx(float(p.real), float(p.imag))
+                    pc = sc.Cx(*cpow(exact_phase[ax], j))
                     parts.append(jx.ew(lambda v, pc=pc: sc.mul(v, pc), out))
                 else:
                     parts.append(out)
@@ -132,30 +176,51 @@ def run_case(c, case):
         ie_, im_ = (tile_np(ie, False), tile_np(im, False)) if tiled else (ie, im)
         a0 = arr.aset("inv_permittivities", jnp.asarray(ie_)).aset("inv_permeabilities", jnp.asarray(im_))
 
-        def run(E, H):
+        def run(E, H, ph, w0, w1, w2):
             st = (jnp.asarray(0, dtype=jnp.int32), a0.aset("fields->E", E).aset("fields->H", H))
-            for _ in range(T):
-                st = forward(st, cfg, oc, key, False, False, False)
+            with bloch_phase_stub(ph), exact_widths((w0, w1, w2)):
+                for _ in range(T):
+                    st = forward(st, cfg, oc, key, False, False, False)
             return st[1].fields.E, st[1].fields.H
         return run
 
     r1, r2 = mk(S1, False), mk(S2, True)
     t0 = time.time()
-    (E1, H1), tr1 = jx.call(r1, E, H)
-    (E2, H2), tr2 = jx.call(r2, tile_sym(E, True), tile_sym(H, True))
+    dt = {2: np.complex128}
+    # grid widths as exact rationals (stub exact_widths): the supercell's are the exact tiling of the cell's
+    W1 = [np.asarray(w, dtype=np.float64) for w in ((np.asarray(x) * SPACING for x in ws) if ws is not None else grid_widths(S1["config"]))]
+    W2 = [np.tile(w, m) for w, m in zip(W1, tile)]
+    for wa, wb in zip(W2, grid_widths(S2["config"])):
+        if not np.allclose(wa, wb, rtol=1e-12, atol=0):
+            raise Inconclusive("supercell grid widths are not the tiling of the cell widths")
+    w1a, w2a = [jx.fracarr(w) for w in W1], [jx.fracarr(w) for w in W2]
+    (E1, H1), tr1 = jx.call(r1, E, H, ph1, *w1a, dtypes=dt)
+    (E2, H2), tr2 = jx.call(r2, tile_sym(E, True), tile_sym(H, True), ph2, *w2a, dtypes=dt)
+    # the real get_bloch_phase of the two placements must be consistent with the tiling (concrete check of the
+    # stubbed function): phase(supercell) == phase(cell)^m up to round-off, and |phase| == 1
+    for b1 in S1["objects"].boundary_objects:
+        if hasattr(b1, "get_bloch_phase") and b1.direction == "+":
+            b2 = [b for b in S2["objects"].boundary_objects if hasattr(b, "get_bloch_phase") and b.axis == b1.axis and b.direction == "+"][0]
+            p1 = complex(b1.get_bloch_phase(shape, SPACING))
+            p2 = complex(b2.get_bloch_phase(sshape, SPACING))
+            c.prove(f"get_bloch_phase axis {b1.axis}: supercell phase == cell phase ^ m and |phase| == 1 (concrete)",
+                    bool(abs(p2 - p1 ** tile[b1.axis]) < 1e-9 and abs(abs(p1) - 1) < 1e-12 and abs(p1 - np.exp(1j * case["kL"][b1.axis])) < 1e-9))
     c.interp_s += time.time() - t0
     j1, j2 = jax.jit(r1), jax.jit(r2)
     mk_c = lambda z: (rng.normal(size=fsh) + (1j * rng.normal(size=fsh) if cplx else 0)) * (~z)
     ce, ch = mk_c(zE), mk_c(zH)
-    want = j2(jnp.asarray(tile_np(ce, True)), jnp.asarray(tile_np(ch, True)))
-    got = tr2(jx.lift(tile_np(ce, True)), jx.lift(tile_np(ch, True)))
+    p1c = jnp.asarray(np.array(phase, dtype=np.complex128))
+    p2c = jnp.asarray(np.array([phase[ax] ** tile[ax] for ax in range(3)], dtype=np.complex128))
+    W1j, W2j = [jnp.asarray(w) for w in W1], [jnp.asarray(w) for w in W2]
+    want = j2(jnp.asarray(tile_np(ce, True)), jnp.asarray(tile_np(ch, True)), p2c, *W2j)
+    got = tr2(jx.lift(tile_np(ce, True)), jx.lift(tile_np(ch, True)), jx.lift(np.asarray(p2c)), *w2a)
     c.validate(jx.to_numeric(got[0]), np.asarray(want[0]), "supercell E after T steps")
     magE, magH = float(np.max(np.abs(np.asarray(want[0])))), float(np.max(np.abs(np.asarray(want[1]))))
 
     def replay(m):
         e, h = model_array(m, E), model_array(m, H)
-        a = j1(jnp.asarray(e), jnp.asarray(h))
-        b = j2(jnp.asarray(tile_np(e, True)), jnp.asarray(tile_np(h, True)))
+        a = j1(jnp.asarray(e), jnp.asarray(h), p1c, *W1j)
+        b = j2(jnp.asarray(tile_np(e, True)), jnp.asarray(tile_np(h, True)), p2c, *W2j)
         worst = 0.0
         for x, y in zip(a, b):
             x = tile_np(np.asarray(x), True)
